@@ -45,6 +45,10 @@ func (s *recStream) addEnc(kind, lval string, tab *w1.Table, res sarama.VerifEnc
 func (s *recStream) addDec(kind, dkind, ctor string, buf []byte, start, n int, aux []byte, want string, wantOff int) {
 	tab := w1.NewTable()
 	tab.ScanDecompress(buf, start, 0)
+	s.addDecTab(kind, dkind, ctor, buf, start, n, aux, want, wantOff, tab)
+}
+
+func (s *recStream) addDecTab(kind, dkind, ctor string, buf []byte, start, n int, aux []byte, want string, wantOff int, tab *w1.Table) sarama.VerifDecoded {
 	dres := sarama.VerifDecodeValue(kind, buf, start, n, aux)
 	val, got := "None", ""
 	if dres.Status == 0 {
@@ -55,17 +59,25 @@ func (s *recStream) addDec(kind, dkind, ctor string, buf []byte, start, n int, a
 	if want != "" {
 		switch {
 		case dres.Status != 0:
-			mon = &cf.Monitor{Signature: "records:roundtrip:" + kind, What: fmt.Sprintf("decoding the encoding failed with status %d %s", dres.Status, dres.Panic)}
+			mon = &cf.Monitor{Signature: rtSig(kind), What: fmt.Sprintf("decoding the encoding failed with status %d %s", dres.Status, dres.Panic)}
 		case dres.Off != wantOff:
-			mon = &cf.Monitor{Signature: "records:roundtrip:" + kind, What: fmt.Sprintf("decoding the encoding stopped at %d, expected %d", dres.Off, wantOff)}
+			mon = &cf.Monitor{Signature: rtSig(kind), What: fmt.Sprintf("decoding the encoding stopped at %d, expected %d", dres.Off, wantOff)}
 		case got != want:
-			mon = &cf.Monitor{Signature: "records:roundtrip:" + kind, What: "decoded value differs: got " + w1.ShortTerm(got) + " want " + w1.ShortTerm(want)}
+			mon = &cf.Monitor{Signature: rtSig(kind), What: "decoded value differs: got " + w1.ShortTerm(got) + " want " + w1.ShortTerm(want)}
 		}
 	}
 	term := fmt.Sprintf("{| d2_kind := %s; d2_buf := %s; d2_start := %d; d2_tab := %s; d2_status := %d; d2_off := %d; d2_val := %s |}",
 		dkind, w1.CoqBytes(buf), start, tab.Coq(), dres.Status, dres.Off, val)
 	s.wd.Add(term, cf.Sidecar{Case: map[string]interface{}{"kind": kind, "buf": w1.Hex(buf), "start": start, "status": dres.Status, "off": dres.Off, "value": w1.ShortTerm(got), "decompress": w1.DescribeTable(tab)},
 		Kind: "decode-" + kind, Nontrivial: len(buf) > 8, Monitor: mon})
+	return dres
+}
+
+func rtSig(kind string) string {
+	if kind == "fblock" {
+		return "c09:roundtrip:FetchResponseBlock"
+	}
+	return "records:roundtrip:" + kind
 }
 
 func decodedTerm(kind string, d sarama.VerifDecoded) string {
@@ -82,6 +94,8 @@ func decodedTerm(kind string, d sarama.VerifDecoded) string {
 		return w1.CoqRecordsTop(d.Records)
 	case "control":
 		return w1.CoqControl(d.Control)
+	case "fblock":
+		return w1.CoqFBlock(d.FBlock)
 	case "resphdr":
 		return fmt.Sprintf("%s %s", cf.Z(int64(d.Length)), cf.Z(int64(d.Corr)))
 	case "reqhdr":
@@ -211,6 +225,64 @@ func runRecords(out string, seed int64, n int) {
 			rres := sarama.VerifEncodeValue(req)
 			s.addEnc("request", fmt.Sprintf("LRequest %d %d %d %d %s %s", hv, req.Key, req.Version, req.CorrelationID, w1.CoqBytes([]byte(req.ClientID)), w1.CoqBytes(req.Body)), empty, rres, 0, true)
 		}
+	}
+	// stream: FetchResponseBlock, all versions, encode -> decode -> re-encode (-> decode)
+	for i := 0; i < n; i++ {
+		v := int16(i % 12)
+		blk := g.FetchBlock(v, i%7 == 6)
+		hasEmpty := false
+		for _, rs := range blk.RecordsSet {
+			if rs.RecordBatch != nil && len(rs.RecordBatch.Records) == 0 {
+				hasEmpty = true
+			}
+		}
+		res := sarama.VerifEncodeValue(sarama.VerifFetchBlock{Block: blk, Version: v})
+		tab := w1.NewTable()
+		w1.EncodeTableFetchBlock(tab, blk, v, res.Bytes)
+		s.addEnc("fblock", fmt.Sprintf("LFBlock %d %s", v, w1.CoqFBlock(blk)), tab, res, 0, len(blk.RecordsSet) > 0)
+		if res.Status != 0 {
+			continue
+		}
+		want := w1.CoqFBlock(w1.NormFetchBlock(blk, v))
+		dtab := w1.NewTable()
+		dtab.ScanFetchBlock(res.Bytes, v)
+		dres := s.addDecTab("fblock", fmt.Sprintf("(KFBlock %d)", v), "DFBlock", res.Bytes, 0, int(v), nil, want, len(res.Bytes), dtab)
+		if dres.Status != 0 || dres.FBlock == nil {
+			continue
+		}
+		// re-encode what was decoded (the Go objects as decode left them, aliases included); the compression level is
+		// not on the wire: give the decoded batches / messages the level the originals were compressed with
+		for _, rs := range dres.FBlock.RecordsSet {
+			if rs.RecordBatch != nil {
+				rs.RecordBatch.CompressionLevel = sarama.CompressionLevelDefault
+			}
+			if rs.MsgSet != nil {
+				for _, mb := range rs.MsgSet.Messages {
+					mb.Msg.CompressionLevel = sarama.CompressionLevelDefault
+				}
+			}
+		}
+		res2 := sarama.VerifEncodeValue(sarama.VerifFetchBlock{Block: dres.FBlock, Version: v})
+		tab2 := w1.NewTable()
+		w1.EncodeTableFetchBlock(tab2, dres.FBlock, v, res2.Bytes)
+		var mon *cf.Monitor
+		if res2.Status != 0 {
+			mon = &cf.Monitor{Signature: "c09:reencode-error:FetchResponseBlock", What: fmt.Sprintf("v%d: re-encoding the decoded block failed with status %d %s", v, res2.Status, res2.Panic)}
+		} else if !hasEmpty && string(res2.Bytes) != string(res.Bytes) {
+			mon = &cf.Monitor{Signature: "c09:reencode-differs:FetchResponseBlock", What: fmt.Sprintf("v%d, %d elements: re-encoding the decoded block gives %d bytes, the original encoding has %d", v, len(blk.RecordsSet), len(res2.Bytes), len(res.Bytes))}
+		} else if res2.Status == 0 {
+			d2 := sarama.VerifDecodeValue("fblock", res2.Bytes, 0, int(v), nil)
+			if d2.Status != 0 || w1.CoqFBlock(d2.FBlock) != w1.CoqFBlock(dres.FBlock) {
+				mon = &cf.Monitor{Signature: "c09:reencode-differs:FetchResponseBlock", What: fmt.Sprintf("v%d: the re-encoding decodes to a different block (status %d)", v, d2.Status)}
+			}
+		}
+		lval := fmt.Sprintf("LFBlock %d %s", v, w1.CoqFBlock(dres.FBlock))
+		term := fmt.Sprintf("{| e2_val := %s; e2_tab := %s; e2_status := %d; e2_prep := %s; e2_bytes := %s |}", lval, tab2.Coq(), res2.Status, cf.Z(int64(res2.PrepLen)), w1.CoqBytes(res2.Bytes))
+		if mon == nil {
+			mon = sizingMonitor("fblock-reencode", res2)
+		}
+		s.we.Add(term, cf.Sidecar{Case: map[string]interface{}{"value": w1.ShortTerm(lval), "version": v, "bytes": w1.Hex(res2.Bytes), "original": w1.Hex(res.Bytes)},
+			Kind: "reencode-fblock", Nontrivial: len(dres.FBlock.RecordsSet) > 0, Monitor: mon})
 	}
 	// every request type has header version >= 1 (request.decode reads a client id unconditionally, request.encode
 	// writes it only for header version >= 1: the asymmetry is unobservable as long as this holds)
